@@ -31,10 +31,16 @@ impl Vm {
     message: LyStr,
   ) -> ExecutionSignal { unsafe {
     let error_message = val!(self.manage_str(message));
-    // Make sure we have enough space for the error message
-    // As this isn't accounted for during compilation
+    // Make sure we have enough space for the error class and message
+    // As this isn't accounted for during compilation. The class takes the
+    // callee slot of the call below, without it the new error instance would
+    // be written over whatever value sits on top of the stack
+    // growing the stack allocates so the message needs a root until it is on the stack
+    self.push_root(error_message);
     let mut fiber = self.fiber;
-    fiber.ensure_stack(self, 1);
+    fiber.ensure_stack(self, 2);
+    self.pop_roots(1);
+    fiber.push(val!(error));
     fiber.push(error_message);
 
     let mode = ExecutionMode::CallingNativeCode(self.fiber.frames().len());
